@@ -2,8 +2,8 @@
    non-vacuity Examples only. The pins in tools/pins/C04.v re-check the statements.
    The model (Model.v) follows src/substream/mod.rs after the `fix:` commits F-C04a..f. *)
 From Coq Require Import List NArith Bool.
-From V.gen Require Consts.
-From V.C04 Require Import Model Proofs.
+From V.gen Require Consts C04Tables.
+From V.C04 Require Import Model Proofs Codec CodecProofs Carrier CarrierProofs Yamux YamuxProofs WebRtc WebRtcProofs.
 Import ListNotations.
 Open Scope N_scope.
 
@@ -255,10 +255,265 @@ Theorem C04_varint_roundtrip :
 Proof. exact rps_enc. Qed.
 Print Assumptions C04_varint_roundtrip.
 
+(* ======================================================================================
+   The tokio-util codecs of src/codec (Identity, UnsignedVarint): what users wrap a Substream in
+   when they drive it through tokio_util::codec::Framed.
+   ====================================================================================== *)
+
+(* Encode any sequence of fitting messages, cut the byte stream into arbitrary chunks, run the
+   Framed read loop (append the chunk, decode until None): no decode call fails, the frames are in
+   order an initial segment of the messages, and exactly the messages — with an empty buffer left —
+   once the whole encoding has arrived. *)
+Theorem C04_codec_roundtrip :
+  forall (cd : tcodec) (msgs : list (list N)) (chunks : list (list N)) (tail : list N) rs dl' src',
+  cd_ok cd -> CFits cd msgs -> concat chunks ++ tail = twire cd msgs ->
+  feed cd None [] chunks = (rs, dl', src') ->
+  existsb is_derr rs = false /\
+  exists rest, msgs = dframes rs ++ rest /\ (chunks <> [] -> tail = [] -> rest = [] /\ src' = []).
+Proof. exact codec_roundtrip. Qed.
+Print Assumptions C04_codec_roundtrip.
+
+(* The sender side refuses what does not fit — a message above the maximum (UnsignedVarint), a
+   message that is not exactly payload_len bytes long (Identity, after fix F-C04h) — and a refused
+   message leaves no byte in the output buffer. *)
+Theorem C04_codec_encode_refuses :
+  (forall mx m, mx < lenN m -> tencode (TUvi mx) m = (EDenied, [])) /\
+  (forall n m, lenN m <> n -> tencode (TIdentity n) m = (EInvalid, [])) /\
+  (forall cd m r out, tencode cd m = (r, out) -> r <> EOk -> out = []) /\
+  (forall cd msgs, twire cd msgs = twire cd (filter (tfits cd) msgs)).
+Proof.
+  split; [exact tencode_oversized|]. split; [exact tencode_wrong_size|].
+  split; [exact tencode_refused|exact twire_filter].
+Qed.
+Print Assumptions C04_codec_encode_refuses.
+
+(* The receiver side: an announced length above the maximum is an error (PermissionDenied) as soon
+   as the prefix is complete, whatever follows and before anything is reserved; a malformed prefix
+   (not minimal, ten continuation bytes) is an error that leaves the decoder as it was; a length
+   that is being waited for never exceeds the maximum. decode is a total function: no panic. *)
+Theorem C04_codec_decode_rejects :
+  (forall mx n x, mx < n -> n < USIZE_MOD -> tdecode (TUvi mx) None (varint_enc n ++ x) = (DDenied, None, x)) /\
+  (forall mx src, match read_payload_size src with
+                  | RpsDecodeErr | RpsOverflow => tdecode (TUvi mx) None src = (DOther, None, src)
+                  | _ => True
+                  end) /\
+  (forall mx dl src r dl' src' k,
+     (forall k0, dl = Some k0 -> k0 <= mx) -> tdecode (TUvi mx) dl src = (r, dl', src') -> dl' = Some k -> k <= mx).
+Proof.
+  split; [exact decode_rejects_oversized|]. split; [exact decode_rejects_malformed|exact decode_pending_bounded].
+Qed.
+Print Assumptions C04_codec_decode_rejects.
+
+(* The codecs and the Substream's own framing are the same wire format with the same limits ... *)
+Theorem C04_codec_same_wire :
+  forall (cd : tcodec) (m : list N), cd_ok cd ->
+  tfits cd m = fitsb (codec_of cd) m /\
+  (tfits cd m = true -> tencode cd m = (EOk, frame (codec_of cd) m)).
+Proof. intros cd m Hok. split; [apply tfits_fitsb; exact Hok|apply tfits_enc]. Qed.
+Print Assumptions C04_codec_same_wire.
+
+(* ... so what any history of Sink / send_framed operations of a Substream puts on the carrier is
+   decoded by the tokio-util codec of the same configuration, under any fragmentation, into an
+   initial segment of the accepted messages — all of them once nothing is queued ... *)
+Theorem C04_substream_to_codec :
+  forall (bp : N) (cd : tcodec) (script : list wev) (ops : list op) rs s' (chunks : list (list N)) rs' dl src,
+  cd_ok cd -> Forall small_op ops ->
+  run_ops bp (codec_of cd) (init_sys script) ops = (rs, s') -> Forall2 good ops rs ->
+  concat chunks = sent s' ->
+  feed cd None [] chunks = (rs', dl, src) ->
+  existsb is_derr rs' = false /\
+  exists rest, accepted (codec_of cd) ops = dframes rs' ++ rest /\
+               (chunks <> [] -> qbytes (ws s') = [] -> rest = [] /\ src = []).
+Proof. exact substream_to_codec. Qed.
+Print Assumptions C04_substream_to_codec.
+
+(* ... and what the tokio-util encoder produces is read back by the Substream reader. *)
+Theorem C04_codec_to_substream :
+  forall (cd : tcodec) (msgs : list (list N)) (wire tail : list N) (script : list rdev) (polls : nat)
+         outs st' wire' script',
+  cd_ok cd -> CFits cd msgs -> wire ++ tail = twire cd msgs ->
+  run_reader polls (codec_of cd) (init_r (codec_of cd)) wire script = (outs, st', wire', script') ->
+  ~ In RPanic outs /\ ~ In RFail outs /\
+  exists rest, msgs = frames_of outs ++ rest /\ (tail = [] -> wire' = [] -> rest = []).
+Proof. exact codec_to_substream. Qed.
+Print Assumptions C04_codec_to_substream.
+
+(* ======================================================================================
+   Carriers. The theorems above quantify over every script of carrier answers. A real carrier
+   is a state machine; Carrier.v runs the same writer over an abstract one and logs its answers.
+   ====================================================================================== *)
+
+(* Every history over every carrier (any state type, any poll_write / poll_flush / poll_shutdown
+   behaviour, any wake-up pattern, anything the environment does in between) is a history of the
+   script-driven writer on the log of the carrier's answers: same results, same Sink state, same
+   bytes handed over. So every statement about `run_ops` for all scripts holds over every carrier. *)
+Theorem C04_carrier_refines_script :
+  forall (S E : Type) (K : carrier S) (env : S -> E -> S) (fuel : nat) (bp : N) (c : codec)
+         (ops : list (gop E)) (g : @gsys S) rs g' L ab,
+  grun K env fuel bp c g ops = Some (rs, g', L, ab) ->
+  forall T, (ab = true -> T = []) ->
+  run_ops bp c (mkSys (g_ws g) (g_sent g) (L ++ T) (g_shut g)) (firstn (length rs) (gops ops)) =
+  (rs, mkSys (g_ws g') (g_sent g') T (g_shut g')).
+Proof. intros S E K env fuel bp c ops g rs g' L ab H T HT. exact (grun_sim K env fuel bp c ops g rs g' L ab H T HT). Qed.
+Print Assumptions C04_carrier_refines_script.
+
+(* The fuel of the carrier-generic definitions is a modelling device. A single poll (poll_ready,
+   poll_flush, poll_close) never exhausts its own: every carrier call ends the poll or takes a byte
+   or an empty frame off the queue. The loops that wait for a wake-up (the flush inside send_framed,
+   write_all, shutdown) run as long as the carrier keeps waking the task: that is the `fuel`
+   argument of gstep / grun, and a run that exhausts it yields None, about which nothing is claimed
+   (the differential run shows such a case as a disagreement). *)
+Theorem C04_carrier_poll_total :
+  forall (S : Type) (K : carrier S) (s : S) (w : wstate) (sent : list N),
+  gflush K (flush_fuel w) s w sent <> None.
+Proof. intros S K s w sent. apply gflush_total. apply flush_fuel_enough. Qed.
+Print Assumptions C04_carrier_poll_total.
+
+(* In particular, over every carrier: whole frames, each exactly once, in call order ... *)
+Theorem C04_carrier_in_order :
+  forall (S E : Type) (K : carrier S) (env : S -> E -> S) (fuel : nat) (bp : N) (c : codec)
+         (ops : list (gop E)) (s0 : S) rs g' L ab,
+  grun K env fuel bp c (ginit s0) ops = Some (rs, g', L, ab) ->
+  Forall2 good (firstn (length rs) (gops ops)) rs ->
+  pbytes (g_ws g') = lenN (qbytes (g_ws g')) /\
+  g_sent g' ++ qbytes (g_ws g') = wire_of c (accepted c (firstn (length rs) (gops ops))).
+Proof. intros S E K env fuel bp c ops s0 rs g' L ab. apply carrier_in_order. Qed.
+Print Assumptions C04_carrier_in_order.
+
+(* ... and a poll_flush / send_framed that reports completion has handed everything that was
+   queued (and then the whole frame) to the carrier: partial acceptance by the carrier — a short
+   count from poll_write — never shortens a message. *)
+Theorem C04_carrier_complete :
+  forall (S : Type) (K : carrier S),
+  (forall fuel s w sent w' sent' s' L,
+     gflush K fuel s w sent = Some (WOk, w', sent', s', L) -> pbytes w = lenN (qbytes w) ->
+     sent' = sent ++ qbytes w /\ qbytes w' = [] /\ frames w' = [] /\ curf w' = None /\ pbytes w' = 0) /\
+  (forall fuel c s w m sent np w' sent' s' L ab,
+     gsend_framed K fuel c s w m sent = Some (WOk, np, w', sent', s', L, ab) -> pbytes w = lenN (qbytes w) ->
+     sent' = sent ++ qbytes w ++ frame c m /\ qbytes w' = [] /\ fitsb c m = true).
+Proof. intros S K. split; [apply carrier_flush_complete|apply carrier_send_framed_complete]. Qed.
+Print Assumptions C04_carrier_complete.
+
+(* ======================================================================================
+   yamux underneath the TCP and WebSocket substream types (Yamux.v): the credit discipline.
+   ====================================================================================== *)
+
+(* Stream::poll_write: accepts min(offered, send window, split size) bytes — never more than
+   offered or than the window, never nothing of a non-empty buffer — and the window shrinks by
+   exactly that; Pending only at zero credit or with the command channel to the connection task
+   full; an error only on a stream that can no longer be written. *)
+Theorem C04_yamux_write_discipline :
+  forall (s : ystate) (len : N) a s',
+  y_write s len = (a, s') ->
+  y_wakes s' = y_wakes s /\
+  match a with
+  | CAcc k => k <= len /\ k <= y_credit s /\ k <= Y_SPLIT /\ (0 < len -> 0 < k) /\
+              y_credit s' + k = y_credit s /\ y_open s' = true /\ y_open s = true /\ y_out s' = y_out s ++ [k]
+  | CPend => s' = s /\ (y_credit s = 0 \/ Y_PARK <= y_q s)
+  | CErr => s' = s /\ y_open s = false
+  end.
+Proof. exact y_write_spec. Qed.
+Print Assumptions C04_yamux_write_discipline.
+
+(* Flow control is respected over whole histories: whatever the operations, window updates and
+   wake-ups, the bytes accepted never exceed the credit given (initial window + updates). *)
+Theorem C04_yamux_credit_respected :
+  forall (fuel : nat) (bp : N) (c : codec) (ops : list (gop yenv)) (g : @gsys ystate) rs g' L ab,
+  grun YK y_apply fuel bp c g ops = Some (rs, g', L, ab) ->
+  lenN (g_sent g') + y_credit (g_car g') + grants (g_car g') <=
+  lenN (g_sent g) + y_credit (g_car g) + grants (g_car g) + genv_grants ops ye_grant.
+Proof. exact grun_yamux_credit. Qed.
+Print Assumptions C04_yamux_credit_respected.
+
+(* On a stream that is not reset no operation fails — in particular poll_write never takes nothing
+   of a non-empty buffer, so no WriteZero — and a writer that is left waiting for good (no wake-up
+   to come) waits for credit or for the connection task, nothing else. *)
+Theorem C04_yamux_stalls_only_for_credit :
+  forall (fuel : nat) (bp : N) (c : codec) (ops : list (gop yenv)) (g : @gsys ystate) rs g' L ab,
+  grun YK y_apply fuel bp c g ops = Some (rs, g', L, ab) ->
+  yclean (g_car g) -> genv_all (fun e => ye_rst e = false) ops ->
+  Forall (fun r => fst r <> WIo /\ fst r <> WClosed) rs /\ (ab = true -> ystalled (g_car g')).
+Proof. exact grun_yamux_clean. Qed.
+Print Assumptions C04_yamux_stalls_only_for_credit.
+
+(* The receiving half: Substream::poll_next over the yamux stream's buffer is Model.poll_next on a
+   script (so receiver totality and the reader round trip hold over it). *)
+Theorem C04_yamux_reader_refines_script :
+  forall (fuel : nat) (c : codec) (st : rstate) (rbuf : list N) (fin : bool) o st' rbuf',
+  (length rbuf < fuel)%nat ->
+  ypoll fuel c st rbuf fin = (o, st', rbuf') ->
+  poll_next c st rbuf (yscript fuel c st rbuf fin) = (o, st', rbuf', []).
+Proof. exact ypoll_sim. Qed.
+Print Assumptions C04_yamux_reader_refines_script.
+
+(* Both ends and the stream between them, under ANY schedule of writer operations (both send
+   APIs, ready / flush / close), window updates of any size at any time, connection-task runs,
+   deliveries of any fragmentation and reader polls: as long as no send_framed call failed or was
+   dropped midway, the frames the reader has returned are, in order, an initial segment of the
+   messages handed over — never a panic, never a ReadFailure — and they are all of them as soon
+   as nothing is queued at the writer, everything accepted by the stream has arrived and the
+   reader has emptied its buffer: none of which needs a further action of the sender. *)
+Theorem C04_yamux_end_to_end :
+  forall (fuel : nat) (bp : N) (c : codec) (wakes : list yenv) (sched : list ystep) (y : ysys),
+  Forall small_step sched ->
+  yrun fuel bp c (ys_init c wakes) sched = Some y -> ys_bad y = false ->
+  ~ In RPanic (ys_outs y) /\ ~ In RFail (ys_outs y) /\
+  exists rest, accepted c (ys_ops y) = frames_of (ys_outs y) ++ rest /\
+    (c <> Identity 0 -> qbytes (g_ws (ys_g y)) = [] -> ys_arr y = lenN (g_sent (ys_g y)) -> ys_rbuf y = [] -> rest = []).
+Proof. exact yamux_e2e. Qed.
+Print Assumptions C04_yamux_end_to_end.
+
+(* ======================================================================================
+   The WebRTC substream type (WebRtc.v): a framing of its own below the Substream.
+   ====================================================================================== *)
+
+(* poll_write: one message per call, at most MAX_FRAME_SIZE bytes and at most what was offered,
+   never nothing of a non-empty buffer; Pending only for the channel's backpressure; an error only
+   after shutdown or once the connection side closed the channel. (It is a carrier: the theorems
+   C04_carrier_* apply with K := RK.) *)
+Theorem C04_webrtc_write_discipline :
+  forall (s : rtc) (len : N) a s',
+  rtc_write s len = (a, s') ->
+  match a with
+  | CAcc k => k <= len /\ k <= RTC_MAX_FRAME /\ (0 < len -> 0 < k) /\ r_out s' = r_out s ++ [k] /\
+              r_q s' = r_q s + 1 /\ r_q s < RTC_CAP
+  | CPend => s' = s /\ RTC_CAP <= r_q s
+  | CErr => r_out s' = r_out s /\ r_q s' = r_q s /\ (r_tx s = false \/ r_rxclosed s = true)
+  end.
+Proof. exact rtc_write_spec. Qed.
+Print Assumptions C04_webrtc_write_discipline.
+
+(* The reading half: a payload handed to the handle reaches the reader's buffer unchanged and in
+   order (while the channel is neither reset, closed nor full), and Substream::poll_next over it —
+   messages taken one at a time, the part the caller's buffer could not take kept for the next
+   read — is Model.poll_next on a script over the buffered bytes. *)
+Theorem C04_webrtc_reader_refines_script :
+  (forall s p fin, rr_ok s -> rr_reset s = false -> rr_eof s = false -> lenN (rr_inq s) < RTC_CAP ->
+                   lenN p <= RTC_MAX_FRAME ->
+                   rr_ok (rr_message s p fin) /\ rr_bytes (rr_message s p fin) = rr_bytes s ++ p /\
+                   rr_reset (rr_message s p fin) = false) /\
+  (forall fuel c st s o st' s',
+     rr_ok s -> (length (rr_bytes s) < fuel)%nat ->
+     wpoll fuel c st s = (o, st', s') ->
+     rr_ok s' /\ poll_next c st (rr_bytes s) (rtc_script fuel c st s) = (o, st', rr_bytes s', [])).
+Proof. split; [exact rr_message_bytes|exact wpoll_sim]. Qed.
+Print Assumptions C04_webrtc_reader_refines_script.
+
 (* ---- the constants the model relies on are those of the source (regenerated on every run) ---- *)
 Example C04_consts :
   Consts.SUBSTREAM_READ_BUFFER_INIT = 1024 /\ Consts.SUBSTREAM_READ_BUFFER_INIT_OTHER = 1024 /\
-  Consts.SUBSTREAM_SIZE_VEC_LEN = 10 /\ 0 < Consts.BACKPRESSURE_BOUNDARY.
+  Consts.SUBSTREAM_SIZE_VEC_LEN = 10 /\ 0 < Consts.BACKPRESSURE_BOUNDARY /\
+  Consts.YAMUX_DEFAULT_CREDIT = 262144 /\ 0 < Consts.C19_WEBRTC_MAX_FRAME_SIZE /\ 0 < Consts.WEBRTC_MAX_INFLIGHT_MESSAGES.
+Proof. vm_compute. repeat split; reflexivity. Qed.
+
+(* The error kinds: the framing code itself names exactly PermissionDenied (its refusals) and WriteZero (a
+   transport that accepts nothing); a carrier failure of any kind is passed on with its kind
+   (From<io::Error>), except that send_identity_payload reports a failed write as ConnectionClosed. The model
+   has one failure event for all kinds; the harness injects every kind of the table (corpus/C04/errkinds.case). *)
+Example C04_error_kinds :
+  C04Tables.SUBSTREAM_ERRORKINDS_MASK = 2 ^ C04Tables.EK_PERMISSION_DENIED + 2 ^ C04Tables.EK_WRITE_ZERO /\
+  C04Tables.SUBSTREAM_IOERR_KEEPS_KIND = 1 /\ C04Tables.SEND_IDENTITY_MAPS_WRITE_ERR_TO_CLOSED = 1 /\
+  C04Tables.ERROR_KINDS_LEN = 20.
 Proof. vm_compute. repeat split; reflexivity. Qed.
 
 (* ---- non-vacuity ---- *)
@@ -302,3 +557,29 @@ Example C04_nonvacuous_overlong_length :
   let '(outs, _, _, _) := run_reader 3 c (init_r c) (repeat 200 40) (repeat (EvChunk 1) 24) in
   outs = [RFail; RFail; RPend].
 Proof. vm_compute. reflexivity. Qed.
+
+(* the tokio-util codec: three messages, the stream cut into 2-byte chunks *)
+Example C04_nonvacuous_codec :
+  let cd := TUvi 300 in
+  let msgs := [repeat 7 200; []; repeat 9 130] in
+  let wire := twire cd msgs in
+  let chunks := map (fun i => takeN 2 (dropN (2 * N.of_nat i) wire)) (seq 0 170) in
+  let '(rs, dl, src) := feed cd None [] chunks in
+  dframes rs = msgs /\ existsb is_derr rs = false /\ src = [] /\ dl = None /\
+  fst (tencode cd (repeat 1 301)) = EDenied /\ fst (tencode (TIdentity 5) [1; 2; 3]) = EInvalid.
+Proof. vm_compute. repeat split; reflexivity. Qed.
+
+(* yamux: a 4000-byte message into a window of 100 bytes; the peer's window updates come in
+   slices of 1500; send_framed completes after the third one, the frames are cut by the credit,
+   and the reader gets the message back *)
+Example C04_nonvacuous_yamux :
+  let c := Varint None in
+  let m := repeat 5 (N.to_nat 4000) in
+  let wakes := repeat (mkYe 1500 false) 4 in
+  let y1 := mkYS (mkG init_w [] (mkY 100 0 true wakes [] false false 0 0) false) 0 [] false (init_r c) [] [] [] false false in
+  match yrun 200 65536 c y1 ([SOp (OFramed m)] ++ [SArrive 100000] ++ repeat SPoll 8) with
+  | Some y => ys_res y = [(WOk, 3)] /\ frames_of (ys_outs y) = [m] /\ ys_bad y = false /\
+              y_out (g_car (ys_g y)) = [2; 98; 1500; 1500; 902]
+  | None => False
+  end.
+Proof. vm_compute. repeat split; reflexivity. Qed.
